@@ -552,6 +552,15 @@ func Exec(p *Program, io *StageIO) (*StageResult, error) {
 				outs[o.Name] = Null()
 				continue
 			}
+			if o.Name == "din" && argOf(io, "mode").Int() == 0 {
+				// the file the directory output d holds, written with d
+				if io.FilesPath == "" {
+					outs[o.Name] = Str("@d_dir/inner.dat")
+				} else {
+					outs[o.Name] = Str(io.FilesPath + "/d_dir/inner.dat")
+				}
+				continue
+			}
 			if io.OutsTemplate != nil && io.OutsTemplate.K == VObj {
 				if tv := io.OutsTemplate.O[o.Name]; tv != nil && tv.K == VStr && (o.T.K == TFiletype || o.T.K == TFile) && argOf(io, "mode").Int() == 0 {
 					pad += 13
